@@ -53,7 +53,7 @@ SPEC = {
     "id": "C10",
     "coq_props": ["Properties/C10.v", "Corr/C10.v"],
     "module": "MS.Properties.C10",
-    "theorems": ["C10_mono", "C10_mono_raw", "C10_1sec_blocks", "C10_refuted", "C10_refuted_1min"],
+    "theorems": ["C10_mono", "C10_mono_raw", "C10_1sec_blocks", "C10_models_equal", "C10_1sec_blocks_flocq", "C10_refuted", "C10_refuted_1min"],
     "corr_require": "Require Import MS.Corr.C10.",
     "agrees": "C10.agrees",
     "in_domain": "C10.in_domain",
@@ -73,8 +73,10 @@ SPEC = {
         "translator gen/: the float constants ticksPerIntervalDivSecsPerDay (both copies), nanosecond, subnanosecond, round are regenerated "
         "from utils/io and executor as exact binary64 (mantissa, exponent) on every run (gen/conf.d/ticks.json)",
         "hand-written models coq/Model/Ticks.v (Flocq inductive binary64) and coq/Model/TicksPF.v (primitive-float mirror); BOTH are compared "
-        "bit-exactly (ticks, sec, nanosec) with GetIntervalTicks32Bit / GetTimeFromTicks on every generated case; their mutual equivalence is "
-        "established differentially, not proved",
+        "bit-exactly (ticks, sec, nanosec) with GetIntervalTicks32Bit / GetTimeFromTicks on every generated case; their equality is PROVED "
+        "(C10_models_equal, Proofs/Ticks_equiv.v) from Flocq's IEEE754.PrimFloat lemmas mul_equiv/add_equiv/sub_equiv/div_equiv/leb_equiv/"
+        "of_int63_equiv/Prim2B_B2Prim, which rest on Coq.Floats.FloatAxioms (mul_spec, add_spec, sub_spec, div_spec, leb_spec, of_uint63_spec, "
+        "Prim2SF_valid, SF2Prim_Prim2SF, Prim2SF_SF2Prim ...)",
         "Go harness, Python driver lib/vk.py",
     ],
     "assumptions": [
